@@ -14,7 +14,15 @@ struct VirtualDriver;
 
 impl embassy_time_driver::Driver for VirtualDriver {
     fn now(&self) -> u64 {
-        NOW_READS.with(|c| c.set(c.get() + 1));
+        // a loop that reads the clock twenty million times without one transport call in between does not end
+        let n = NOW_READS.with(|c| {
+            c.set(c.get() + 1);
+            c.get()
+        });
+        if n > SPIN_LIMIT {
+            NOW_READS.with(|c| c.set(0));
+            std::panic::resume_unwind(Box::new(crate::world::Watchdog("clock read")));
+        }
         NOW.with(|c| c.get())
     }
 
@@ -35,6 +43,13 @@ pub fn reset() {
     // Start well away from zero so that "relative to now" never underflows.
     NOW.with(|c| c.set(1_000_000 * TICKS_PER_MS));
     WAKE.with(|c| c.set(None));
+}
+
+pub const SPIN_LIMIT: u64 = 20_000_000;
+
+/// A transport call or a new API call: the count of clock reads starts again.
+pub fn spin_reset() {
+    NOW_READS.with(|c| c.set(0));
 }
 
 pub fn now() -> u64 {
